@@ -441,7 +441,7 @@ Definition dcap_obs_ok (dstlen : nat) (src : bytes) (cls : N) (rs : list N) : bo
    success where the model is short of room, provided the octets are the right ones, fit, and the
    whole source is consumed.  [amb] allows the optional further octet holding the second CR. *)
 Definition slack : nat := 8.
-Definition xf_obs_ok (m : outcome xres) (dstlen srclen : nat) (amb : unit -> bool) (whole : unit -> outcome bytes)
+Definition xf_obs_ok (lenient : bool) (m : outcome xres) (dstlen srclen : nat) (amb : unit -> bool) (whole : unit -> outcome bytes)
     (cls : N) (ndst nsrc : nat) (out : bytes) : bool :=
   match m with
   | Panic => cls =? 2
@@ -462,18 +462,21 @@ Definition xf_obs_ok (m : outcome xres) (dstlen srclen : nat) (amb : unit -> boo
               end)
       | XShortSrc => (cls =? 4) && Nat.eqb ndst 0 && Nat.eqb nsrc 0
       | XInvalid => (cls =? 1) || ((cls =? 3) && Nat.eqb ndst 0 && Nat.eqb nsrc 0 && Nat.ltb dstlen (srclen + slack))
+                    (* [lenient] (decoder, arbitrary octets): C08 asks for "a value or an error"; a decoder that shows
+                       something for a lone ESC / an unknown escape code is not wrong, its counts must still be consistent *)
+                    || (lenient && (cls =? 0) && Nat.eqb nsrc srclen && Nat.eqb ndst (length out) && Nat.leb ndst dstlen)
       end
   end.
 
 (* encoder: destination d0 as the caller left it, raw source octets *)
 Definition enc_call_ok (d0 src : bytes) (ateof : bool) (cls : N) (ndst nsrc : nat) (out : bytes) : bool :=
   let t := utf8_dec src in
-  xf_obs_ok (enc_xfb d0 src ateof) (length d0) (length src) (fun _ => ambiguous t) (fun _ => encode t) cls ndst nsrc out.
+  xf_obs_ok false (enc_xfb d0 src ateof) (length d0) (length src) (fun _ => ambiguous t) (fun _ => encode t) cls ndst nsrc out.
 (* decoder: out is UTF-8; in the ambiguous reading (8k septets, the last one CR) C08 lets the
    decoder keep or drop that CR *)
 Definition dec_value (src : bytes) : outcome bytes := do rs <- decode src; Ok (utf8_bytes rs).
 Definition dec_call_ok (d0 src : bytes) (ateof : bool) (cls : N) (ndst nsrc : nat) (out : bytes) : bool :=
-  xf_obs_ok (dec_xf d0 src ateof) (length d0) (length src)
+  xf_obs_ok true (dec_xf d0 src ateof) (length d0) (length src)
     (fun _ => match filler_present (unpack_septets src) with Ok f => f | _ => false end) (fun _ => dec_value src) cls ndst nsrc out.
 
 (* The other public entry points of the same objects (Encoder.String, transform.Writer + Close under any
